@@ -84,3 +84,19 @@ def head_chain(ty, n=4):
             break
         ty = args[0]
     return "<".join(out)
+
+
+SINGLE_CHILD = THROUGH + ("AndThenParser", "FilterParser", "FlatMapParser", "OrFailParser", "WithExpectedMessage")
+
+
+def sequence(ty, depth=0):
+    """The parts of a parser type in the order they run: AndParser<L, R, ..> is L's parts then R's;
+    wrappers with one child are looked through; everything else is one part."""
+    head, args = split_generic(ty)
+    name = head.split("::")[-1]
+    if depth < 60 and args:
+        if name in BOTH and len(args) >= 2:
+            return sequence(args[0], depth + 1) + sequence(args[1], depth + 1)
+        if name in SINGLE_CHILD:
+            return sequence(args[0], depth + 1)
+    return [ty]
